@@ -20,7 +20,8 @@ EXTENDS SplineMath, PPolyMath, SplineObj, Json, IOUtils
 Tr == ndJsonDeserialize(IOEnv.TRACE)
 JMin == "VJ_MIN" \in DOMAIN IOEnv /\ IOEnv.VJ_MIN = "1"
 JGrad == "VJ_GRAD" \in DOMAIN IOEnv /\ IOEnv.VJ_GRAD = "1"
-MaxUnk == IF "VJ_MAXUNK" \in DOMAIN IOEnv THEN RToInt(IOEnv.VJ_MAXUNK) ELSE 40        \* dense exact solves only up to this many unknowns
+MaxUnk == 40         \* dense exact solves with arbitrary double durations only up to this many unknowns (entries of the inverse grow fast)
+MaxUnkDyadic == IF "VJ_MAXUNK" \in DOMAIN IOEnv THEN RToInt(IOEnv.VJ_MAXUNK) ELSE 150   \* durations on the grid of multiples of 1/16: long splines stay cheap
 
 VARIABLES l,        \* next trace line
           bad,      \* deviations found so far
@@ -171,7 +172,8 @@ BuildCands(ev, pr, C, Cx) ==
     \o (IF AllPos(pr.T) /\ Len(ev.out.coef) = NUnk(pr) THEN ResCands(ev, pr, C) ELSE <<>>)
     \o (IF Cx # <<>> THEN MinCands(ev, pr, C, Cx) ELSE <<>>)
 
-WantExact(ev, pr) == (JMin \/ JGrad) /\ NUnk(pr) <= MaxUnk /\ InW(ev.order, pr.T)
+SmallDyadic(T) == \A i \in 1..Len(T) : LET x == RMul(T[i], "16") IN RFloor(x) = x
+WantExact(ev, pr) == (JMin \/ JGrad) /\ InW(ev.order, pr.T) /\ (NUnk(pr) <= MaxUnk \/ (NUnk(pr) <= MaxUnkDyadic /\ SmallDyadic(pr.T)))
 
 (* ------------------------------- memo --------------------------------- *)
 \* observation of `val` for `key`: first one is remembered, later ones must have identical bits
